@@ -122,6 +122,18 @@ let hobs_of_string s =
   | [ok; db; ans] -> { ho_ok = bool_of_string01 ok; ho_db = db_of_string db; ho_answer = bool_of_string01 ans }
   | _ -> failwith ("bad hobs " ^ s)
 
+let lhop_of_string s =
+  match String.split_on_char '~' s with
+  | ["a"; o; d] -> LHAppend (guid_of_string o, bytes_of_hex d)
+  | ["r"; o; d] -> LHRemove (guid_of_string o, bytes_of_hex d)
+  | ["q"; o; d] -> LHQuery (guid_of_string o, bytes_of_hex d)
+  | _ -> failwith ("bad lhop " ^ s)
+let lobs_of_string s =
+  match String.split_on_char '~' s with
+  | [ok; l; f; i] -> { lo_ok = bool_of_string01 ok; lo_list = siglist_of_string l; lo_found = bool_of_string01 f;
+                       lo_index = n_of_string i }
+  | _ -> failwith ("bad lobs " ^ s)
+
 (* ---------- variable I/O ---------- *)
 let fs_obs_of_string s =
   match String.split_on_char '~' s with
@@ -249,6 +261,13 @@ let run (op : string) (a : string list) : string list =
       let obs = List.map hobs_of_string (split '&' obs) in
       if List.length ops <> List.length obs then ["skip"; "ops/obs length"] else
       let ((v, i), okc) = run_history pem_oracle init init (List.combine ops obs) N0 N0 in
+      [(match int_of_n v with 0 -> "ok" | 1 -> "violation" | _ -> "mismatch"); string_of_n i; string_of_n okc]
+  | "list_history", [init; ops; obs] ->
+      let init = siglist_of_string init in
+      let ops = List.map lhop_of_string (split '&' ops) in
+      let obs = List.map lobs_of_string (split '&' obs) in
+      if List.length ops <> List.length obs then ["skip"; "ops/obs length"] else
+      let ((v, i), okc) = run_list_history pem_oracle init init (List.combine ops obs) N0 N0 in
       [(match int_of_n v with 0 -> "ok" | 1 -> "violation" | _ -> "mismatch"); string_of_n i; string_of_n okc]
   (* C11 *)
   | "var_write", [dir; name; g; attrs; value; ok; trace] ->
